@@ -100,6 +100,9 @@ func cloneRec(r wm.Rec) wm.Rec {
 // one type by another so that the number of types stays the same.
 var bitmapReplace bool
 
+// hipPart selects which part of a HIP header changeField alters (0: the algorithm).
+var hipPart int
+
 func changeField(r *wm.Rec, i int, spec wm.FieldSpec) bool {
 	f := &r.Fields[i]
 	flip := func(b []byte, maxLen int) []byte {
@@ -176,7 +179,8 @@ func changeField(r *wm.Rec, i int, spec wm.FieldSpec) bool {
 			return false
 		}
 	case wm.HIPHdr:
-		f.U ^= 1
+		// hipPart: the algorithm, the HIT, the public key, the boundary between the two (twins_test.go)
+		return changeHIP(f, hipPart)
 	case wm.APLs:
 		switch {
 		case len(f.APL) > 0 && f.APL[0].Family == 1 && len(f.APL[0].Afd) > 0:
@@ -539,7 +543,19 @@ func dupTypes() []uint16 {
 func derive(t *rapid.T, a wm.Rec) (wm.Rec, string) {
 	b := cloneRec(a)
 	layout, _ := wm.LayoutOf(a.Type)
-	switch rapid.IntRange(0, 11).Draw(t, "how") {
+	switch rapid.IntRange(0, 13).Draw(t, "how") {
+	case 13:
+		// an opaque field replaced by the octets whose base64 text (or raw text) differs only in letter case
+		if x, ok := deriveTextCase(t, a); ok {
+			return x, howTextCase
+		}
+		return b, "identical"
+	case 12:
+		// one name cut into labels at another place (`a.b` as one label / as two)
+		if x, ok := deriveLabelBoundary(t, a); ok {
+			return x, howLabelBoundary
+		}
+		return b, "identical"
 	case 11:
 		// SVCB/HTTPS with a parameter value the decoder accepts but the packer refuses (an empty
 		// alpn-id): A and B differ inside that value
@@ -646,8 +662,11 @@ func derive(t *rapid.T, a wm.Rec) (wm.Rec, string) {
 		if len(b.Fields) > 0 && !b.NoRdata {
 			i := rapid.IntRange(0, len(b.Fields)-1).Draw(t, "field")
 			bitmapReplace = rapid.Bool().Draw(t, "bmreplace")
+			if b.Fields[i].K == wm.HIPHdr {
+				hipPart = rapid.IntRange(0, 4).Draw(t, "hippart")
+			}
 			ok := changeField(&b, i, layout[i])
-			bitmapReplace = false
+			bitmapReplace, hipPart = false, 0
 			if ok {
 				return b, "one-field-changed"
 			}
